@@ -231,6 +231,11 @@ def families(tier, horizon=25):
         scaled(J + "coulomb_atoms/cell_bounded.ini", 4, start=crowded_atoms_edge(), horizon=12,
                name="coulomb/cell_bounded+edge4"),
         scaled(J + "coulomb_atoms/power_bounded.ini", 3, horizon=horizon),
+        # as built by `run.py -vv`: the debug branches of mediator, scheduler and state handler are taken
+        scaled(J + "dipoles/dipole_factors_inside_first.ini", 3, horizon=horizon,
+               name="dipoles/dipole_factors_inside_first*3+debug", info={"debug_logging": True}),
+        Spec("coulomb/cell_veto+debug", J + "coulomb_atoms/cell_veto.ini", horizon=horizon, tags=("shipped",),
+             info={"debug_logging": True}),
         # "late in a very long run": every lazy-deletion counter of the heap scheduler a few trashes below 2^32
         scaled(J + "coulomb_atoms/power_bounded.ini", 4, horizon=horizon, name="coulomb/power_bounded*4@2^32",
                info={"preset_counters": 2 ** 32 - 4}),
